@@ -89,6 +89,19 @@ func (e *Env) note(v ssa.Value) {
 	}
 }
 
+// paramName: blank parameters get their index so that two of them never share a term.
+func paramName(v *ssa.Parameter) string {
+	if v.Name() != "_" && v.Name() != "" {
+		return v.Name()
+	}
+	for i, q := range v.Parent().Params {
+		if q == v {
+			return fmt.Sprintf("_%d", i)
+		}
+	}
+	return "_"
+}
+
 // ---------------------------------------------------------------- store-to-load forwarding
 
 // forwarded returns the value stored by the single store to the loaded location when that location is a field
@@ -163,6 +176,59 @@ func forwarded(u *ssa.UnOp) ssa.Value {
 		return st.Val
 	}
 	return nil
+}
+
+// wholeStructForward: load of field f of a local struct variable that is assigned exactly once, as a whole, by a store
+// dominating the load (x := f(); … x.f …): returns the stored struct value and the field name.
+func wholeStructForward(u *ssa.UnOp) (ssa.Value, string) {
+	fa, ok := u.X.(*ssa.FieldAddr)
+	if !ok {
+		return nil, ""
+	}
+	al, ok := fa.X.(*ssa.Alloc)
+	if !ok {
+		return nil, ""
+	}
+	var whole []*ssa.Store
+	for _, r := range *al.Referrers() {
+		switch r := r.(type) {
+		case *ssa.Store:
+			if r.Addr == ssa.Value(al) {
+				whole = append(whole, r)
+			} else {
+				return nil, "" // the address escapes
+			}
+		case *ssa.FieldAddr:
+			for _, rr := range *r.Referrers() {
+				if _, isLoad := rr.(*ssa.UnOp); !isLoad {
+					return nil, "" // a field is stored to / its address escapes
+				}
+			}
+		case *ssa.UnOp, *ssa.DebugRef:
+		default:
+			return nil, ""
+		}
+	}
+	if len(whole) != 1 {
+		return nil, ""
+	}
+	st := whole[0]
+	dom := st.Block().Dominates(u.Block()) && st.Block() != u.Block()
+	if st.Block() == u.Block() {
+		for _, in := range st.Block().Instrs {
+			if in == ssa.Instruction(st) {
+				dom = true
+				break
+			}
+			if in == ssa.Instruction(u) {
+				break
+			}
+		}
+	}
+	if !dom {
+		return nil, ""
+	}
+	return st.Val, fieldName(fa.X.Type(), fa.Field)
 }
 
 // ---------------------------------------------------------------- terms
@@ -354,7 +420,7 @@ func (e *Env) Term(v ssa.Value) string {
 		if a, pe := e.actual(v); a != nil {
 			return pe.Term(a)
 		}
-		return "P:" + v.Name()
+		return "P:" + paramName(v)
 	case *ssa.FreeVar:
 		return "FV:" + v.Name()
 	case *ssa.Const:
@@ -392,6 +458,9 @@ func (e *Env) Term(v ssa.Value) string {
 		if v.Op == token.MUL {
 			if f := forwarded(v); f != nil {
 				return e.Term(f)
+			}
+			if sv, fld := wholeStructForward(v); sv != nil {
+				return e.Term(sv) + "." + fld
 			}
 			return "*" + e.Term(v.X)
 		}
@@ -814,9 +883,13 @@ var initFuncs []*ssa.Function
 
 func (p *Prog) allFuncsIncludingInit() []*ssa.Function {
 	if initFuncs == nil {
-		initFuncs = append(initFuncs, p.Funcs...)
+		seen := map[*ssa.Function]bool{}
+		for _, f := range p.Funcs {
+			seen[f] = true
+			initFuncs = append(initFuncs, f)
+		}
 		for _, sp := range p.Pkg {
-			if f := sp.Func("init"); f != nil {
+			if f := sp.Func("init"); f != nil && !seen[f] {
 				initFuncs = append(initFuncs, f)
 			}
 		}
@@ -838,6 +911,9 @@ type Fact struct {
 	big []string
 	// the comparison that produced the fact had an arithmetic operand (so the fact presumes that arithmetic did not wrap)
 	arith bool
+	// for literals about a call (ok:… = the call returned a nil error; call:… = boolean result): the call and its env
+	Call ssa.CallInstruction
+	Env  *Env
 }
 
 // hasArith: the integer value is computed by +, -, *, << (looking through conversions and forwarded loads).
@@ -1057,7 +1133,7 @@ func (e *Env) decode0(c ssa.Value, truth bool, why string) []Fact {
 		}
 		if sc := b.Call.StaticCallee(); sc != nil && len(sc.Blocks) > 0 && strings.HasPrefix(sc.Pkg.Pkg.Path(), modPath) && e.depth < 4 {
 			// boolean module function: add what its `return <truth>` paths guarantee (e.g. mustVerifyPayable)
-			out := []Fact{lit("call:"+FuncName(sc)+"("+e.termList(args)+")", truth, why)}
+			out := []Fact{{Atom: "call:" + FuncName(sc) + "(" + e.termList(args) + ")", Pos: truth, Why: why, Call: b, Env: e}}
 			sub := e.Sub(b, sc)
 			out = append(out, sub.returnFacts(func(r *ssa.Return) bool {
 				if len(r.Results) != 1 {
@@ -1069,9 +1145,9 @@ func (e *Env) decode0(c ssa.Value, truth bool, why string) []Fact {
 			return out
 		}
 		if in := InvokeName(b); in != "" {
-			return []Fact{lit("call:"+in+"("+e.Term(b.Call.Value)+","+e.termList(args)+")", truth, why)}
+			return []Fact{{Atom: "call:" + in + "(" + e.Term(b.Call.Value) + "," + e.termList(args) + ")", Pos: truth, Why: why, Call: b, Env: e}}
 		}
-		return []Fact{lit("call:"+name+"("+e.termList(args)+")", truth, why)}
+		return []Fact{{Atom: "call:" + name + "(" + e.termList(args) + ")", Pos: truth, Why: why, Call: b, Env: e}}
 	case *ssa.Extract:
 		return []Fact{lit("cond:"+e.Term(c), truth, why)}
 	}
@@ -1114,8 +1190,8 @@ func retval(r *ssa.Return, i int) ssa.Value {
 func returnsOf(fn *ssa.Function) []*ssa.Return {
 	var out []*ssa.Return
 	for _, b := range fn.Blocks {
-		if len(b.Instrs) == 0 {
-			continue
+		if len(b.Instrs) == 0 || b == fn.Recover {
+			continue // the Recover block only runs after a recovered panic; nothing in the module recovers
 		}
 		if r, ok := b.Instrs[len(b.Instrs)-1].(*ssa.Return); ok {
 			out = append(out, r)
@@ -1206,6 +1282,18 @@ func (e *Env) why(pos token.Pos) string {
 	return e.Fn.Name() + ":" + e.P.Pos(pos)
 }
 
+// callTerm renders a call canonically: "Iface.Method(recv,args)" / "pkg.Func(args)".
+func (e *Env) callTerm(c ssa.CallInstruction) string {
+	cc := c.Common()
+	if in := InvokeName(c); in != "" {
+		return in + "(" + e.Term(cc.Value) + "," + e.termList(cc.Args) + ")"
+	}
+	if sc := cc.StaticCallee(); sc != nil {
+		return FuncName(sc) + "(" + e.termList(cc.Args) + ")"
+	}
+	return "dyn(" + e.termList(cc.Args) + ")"
+}
+
 // errCallOf: v is the error result of a call (directly or via Extract); returns the call.
 func errCallOf(v ssa.Value) *ssa.Call {
 	switch x := v.(type) {
@@ -1258,6 +1346,15 @@ func (e *Env) EdgeFacts() map[edge][]Fact {
 		e.ef[fE] = append(e.ef[fE], e.decode(iff.Cond, false, why)...)
 		// validator summaries: `err == nil` edge of a module call gets what every success return of the callee guarantees
 		if bo, ok := iff.Cond.(*ssa.BinOp); ok && (bo.Op == token.NEQ || bo.Op == token.EQL) && isNilConst(bo.Y) {
+			if call := errCallOf(bo.X); call != nil {
+				nilEdge, errEdge := fE, tE
+				if bo.Op == token.EQL {
+					nilEdge, errEdge = tE, fE
+				}
+				ct := e.callTerm(call)
+				e.ef[nilEdge] = append(e.ef[nilEdge], Fact{Atom: "ok:" + ct, Pos: true, Why: why, Call: call, Env: e})
+				e.ef[errEdge] = append(e.ef[errEdge], Fact{Atom: "ok:" + ct, Pos: false, Why: why, Call: call, Env: e})
+			}
 			if call := errCallOf(bo.X); call != nil && e.depth < 4 {
 				nilEdge := fE
 				if bo.Op == token.EQL {
